@@ -293,6 +293,7 @@ fn miri_scenario(prop: &str) -> Option<&'static str> {
     match prop {
         "C01" => Some("capacity_race"),
         "C02" => Some("value_refs"),
+        "C08" => Some("value_lifecycle"),
         "C17" => Some("metrics_many_threads"),
         "C18" => Some("first_use_hashing"),
         _ => None,
